@@ -341,3 +341,22 @@ func FixtureCorpus(repo string, names ...string) []CorpusEntry {
 	}
 	return out
 }
+
+// BaseFormCorpus: base paths with a trailing slash ("a trailing slash on it is
+// insignificant") and other spec-handler names.
+func BaseFormCorpus(dir string) []CorpusEntry {
+	var out []CorpusEntry
+	set := map[string][]string{"/a": {"get"}, "/a/{x}": {"get"}, "/": {"post"}}
+	forms := []baseForm{
+		{"srv-root", "servers: [{url: /}]\n", ""},
+		{"srv-trailing", "servers: [{url: 'https://example.com/v1/'}]\n", ""},
+		{"flag-trailing", "", "/v2/"},
+	}
+	for _, bf := range forms {
+		name := "base-" + bf.name
+		out = append(out, CorpusEntry{Name: name, Spec: writeSpec(filepath.Join(dir, name), "openapi", routeSpec(bf.servers, set)), BasePath: bf.flag, Group: "base-forms"})
+	}
+	name := "base-specname"
+	out = append(out, CorpusEntry{Name: name, Spec: writeSpec(filepath.Join(dir, name), "openapi", routeSpec("servers: [{url: /v1}]\n", set)), SpecHandlerName: "api.json", Group: "base-forms"})
+	return out
+}
